@@ -182,6 +182,10 @@ func (wgb *WeightedAuthorizationModelGraphBuilder) parseThis(wg *WeightedAuthori
 		directlyRelated = relationMetadata.GetDirectlyRelatedUserTypes()
 	}
 
+	// the edges of THIS direct assignment, by target: a direct assignment written twice under one operator
+	// ([user] but not [user], JSON only) gets its own edges, like any other repeated operand
+	ownEdges := make(map[string]*WeightedAuthorizationModelEdge, len(directlyRelated))
+
 	for _, directlyRelatedDef := range directlyRelated {
 		switch {
 		case directlyRelatedDef.GetRelationOrWildcard() == nil:
@@ -200,10 +204,26 @@ func (wgb *WeightedAuthorizationModelGraphBuilder) parseThis(wg *WeightedAuthori
 
 		// de-dup types that are conditioned, e.g. if define viewer: [user, user with condX]
 		// we only draw one edge from user to x#viewer, but with two conditions: none and condX
-		err := wg.UpsertEdge(parentNode, curNode, DirectEdge, "", directlyRelatedDef.GetCondition())
-		if err != nil {
-			return err
+		if parentNode == nil || curNode == nil {
+			return fmt.Errorf("%w: Model cannot be parsed", ErrInvalidModel)
 		}
+
+		condition := directlyRelatedDef.GetCondition()
+		if condition == "" {
+			condition = NoCond
+		}
+
+		if edge, ok := ownEdges[curNode.uniqueLabel]; ok {
+			if !slices.Contains(edge.conditions, condition) {
+				edge.conditions = append(edge.conditions, condition)
+			}
+
+			continue
+		}
+
+		wg.AddEdge(parentNode.uniqueLabel, curNode.uniqueLabel, DirectEdge, "", []string{condition})
+		edges := wg.edges[parentNode.uniqueLabel]
+		ownEdges[curNode.uniqueLabel] = edges[len(edges)-1]
 	}
 	return nil
 }
